@@ -577,3 +577,31 @@ Proof.
   - intros l1 l2 r1 r2 H1 H2; inversion H1; inversion H2; subst; reflexivity.
   - reflexivity.
 Qed.
+
+Definition iface_fields (d : definition) : list field_def :=
+  match d with DInterface _ _ _ _ fs _ => fs | _ => [] end.
+
+Theorem extend_interface_merges fuel K E exts n d fs dirs t' :
+  extend_tdef fuel K E exts (TInterface n d fs dirs) = Ok t' ->
+  exists new_fields,
+    omap (build_field fuel K E) (flat_map ext_fields exts) = Ok new_fields
+    /\ t' = TInterface n d (fs ++ new_fields) (dirs ++ flat_map ext_dirs exts).
+Proof.
+  unfold extend_tdef.
+  destruct (negb _) eqn:Hk; [discriminate|].
+  apply Bool.negb_false_iff in Hk.
+  assert (Hif : forall x, In x exts -> exists e de nm ds f l, x = DInterface e de nm ds f l).
+  { intros x Hx. rewrite forallb_forall in Hk. specialize (Hk x Hx).
+    unfold ext_kind_ok in Hk. destruct x; simpl in Hk; try discriminate; eauto 10. }
+  destruct (fold_exts _ (map sf_name fs) fs exts) as [fs'| | |] eqn:Hf; simpl; try discriminate.
+  intros H; inversion H; subst; clear H.
+  eapply (fold_exts_spec _ iface_fields (omap (build_field fuel K E))) in Hf.
+  - destruct Hf as [new [Hn ->]]. exists new; split; [|reflexivity].
+    rewrite <- Hn; f_equal; apply flat_map_ext_in; intros x Hx.
+    destruct (Hif x Hx) as (? & ? & ? & ? & ? & ? & ->); reflexivity.
+  - intros h a x h' a' Hs. destruct x; simpl in *;
+      try (inversion Hs; subst; exists []; rewrite app_nil_r; auto; fail).
+    eapply add_fields_spec; eauto.
+  - intros; apply omap_app; assumption.
+  - reflexivity.
+Qed.
